@@ -51,7 +51,20 @@ FINDING_TEXT = {
     "F-C13-3": "listings of ANOTHER database lose live series after a DROP SERIES (pooled index search keeps the deleted set)",
     "F-C13-4": "DROP SERIES FROM rp.m also drops the matching series of the same measurement in the other retention policy",
     "F-C13-5": "SHOW TAG KEYS keeps listing the tag keys of a measurement whose series were all dropped",
+    "F-C13-6": "SHOW SERIES / SHOW TAG VALUES FROM rp.m also list the series of the same measurement in the other retention policy",
+    "F-C13-7": "rows of a series dropped while still in the write-ahead log come back after a restart",
+    "F-C13-8": "the series of a dropped measurement stay listed through the same-named measurement of the other retention policy",
 }
+CAUSE = {"cross": "F-C13-4", "wal": "F-C13-7"}
+
+
+def skey(x):
+    """total order on the canonical values (numbers before anything else, numerically)"""
+    if isinstance(x, (list, tuple)):
+        return (2, tuple(skey(e) for e in x))
+    if isinstance(x, bool) or not isinstance(x, (int, float)):
+        return (1, repr(x))
+    return (0, x)
 
 
 # ---------------------------------------------------------------------------------------------------
@@ -67,7 +80,7 @@ def gen_behaviours(tier, seed):
     """-> ({skeleton letter: [hist]}, stats, future of the exhaustive run)"""
     quick = tier == "quick"
     letters = ["A", "B", "C"] if quick else ["A", "B", "C", "D", "E"]
-    nsim = 16 if quick else 60
+    nsim = 24 if quick else 80
     depth = 10 if quick else 14
     per = 14 if quick else 36
     stats = {"sim": {}}
@@ -84,9 +97,15 @@ def gen_behaviours(tier, seed):
                 groups.setdefault(key, []).append(h)
             rnd = random.Random(seed * 31 + ord(k))
             hs = [rnd.choice(g) for _, g in sorted(groups.items())]
-            # the more drops a behaviour has the better
-            hs.sort(key=lambda h: -sum(1 for e in h if e["a"].startswith("Drop") and e["a"] != "DropSeriesNoFrom"))
-            hs = hs[:per]
+            # the more drops a behaviour has the better; a behaviour that meets a Compact with out-of-order rows first
+            def ooo(h):
+                return any(e["a"] == "Compact" and i and any(v["oo"] > 0 for v in h[i - 1]["lay"].values()) for i, e in enumerate(h))
+
+            def drops(h):
+                return sum(1 for e in h if e["a"].startswith("Drop") and e["a"] != "DropSeriesNoFrom")
+            first = sorted([h for h in hs if ooo(h)], key=lambda h: -drops(h))[:per // 3]
+            rest = sorted([h for h in hs if h not in first], key=lambda h: -drops(h))
+            hs = (first + rest)[:per]
             out[k] = hs
             stats["sim"][k] = {"traces": len(r["traces"]), "distinct_prefixes": len(groups), "replayed": len(hs), "num": nsim,
                                "depth": depth, "wall_s": round(r["wall_s"], 1), "skeleton": SKELS[k]}
@@ -146,6 +165,15 @@ def shapes_of(rows, k):
     }
 
 
+def leaked(live, extra, k, shape):
+    """answer of a shape whose series come from the measurement-name scan when that scan returns the deleted series
+    `extra` too: the index, not the rows, decides a tag condition, and for != / !~ the set subtracted from the scan
+    holds no deleted series - so ALL rows of the deleted series come back, whatever their tag values"""
+    if shape in ("ne", "nre"):
+        return sorted(shapes_of(live, k)[shape] + list(extra))
+    return shapes_of(live + list(extra), k)[shape]
+
+
 def canon_exp(e):
     """TLA+ export of ShapesOf -> the canonical form of shapes_of"""
     out = {}
@@ -198,7 +226,9 @@ class Conc:
         self.kv = rnd.choice([1, 3, 1000003]) if self.kind == "int" else rnd.choice([0.5, 1.5, 1024.0])
         self.re_text = rnd.choice(["/a|c/", "/c|a/", "/[ac]/"])
         self.nre_text = rnd.choice(["/b/", "/^b$/"])
-        self.drop_default_plain = rnd.random() < 0.5    # name the default policy's measurement without a qualifier
+        # statements always name the retention policy: an unqualified DROP MEASUREMENT m / DROP SERIES FROM m addresses
+        # the measurement in the whole database (InfluxQL), only the qualified form names ONE policy's measurement
+        self.drop_default_plain = False
 
     def t(self, t):
         return self.base + t * self.step
@@ -238,8 +268,10 @@ class Conc:
             ("cntre", f"select count(v) from {s} where host =~ {self.re_text}"),
         ]
 
-    def name_statements(self, n):
-        m = self.mst[n]
+    def list_statements(self, inst):
+        m = self.src(inst)
+        if inst.startswith("rp1.") and self.drop_default_plain:
+            m = m.split(".", 1)[1]
         return [("series", f"show series from {m}"), ("tkeys", f"show tag keys from {m}"),
                 ("thost", f"show tag values from {m} with key = host"), ("tregion", f"show tag values from {m} with key = region")]
 
@@ -324,6 +356,7 @@ class Behaviour(threading.Thread):
         self.db_exists = False
         self.dropped_any = False
         self.flaky = 0
+        self.stmts = []
 
     # ---- plumbing ----------------------------------------------------------------------------------
     def q(self, text, db=None, post=False, nodb=False):
@@ -338,6 +371,7 @@ class Behaviour(threading.Thread):
         raise vlib.Infra(f"query failed: {text}: {last}")
 
     def ddl(self, text, db=None, ok_errors=()):
+        self.stmts.append(text)
         st, body = self.q(text, db=db, post=True)
         err = ""
         if isinstance(body, dict):
@@ -349,6 +383,8 @@ class Behaviour(threading.Thread):
         return err
 
     def write(self, db, lines, rp):
+        if rp != "rpz":
+            self.stmts.append(f"write db={db} rp={rp}: " + " | ".join(lines))
         t0 = time.time()
         last = ""
         while time.time() - t0 < CONV:
@@ -435,14 +471,14 @@ class Behaviour(threading.Thread):
                         continue
                     for v in s["values"]:
                         rows.append((v[1], v[2], c.abs_t(v[0]), c.abs_v(v[3])))
-                out[name] = sorted(rows, key=repr)
+                out[name] = sorted(rows, key=skey)
             elif name == "gtag":
                 d = {}
                 for s in series:
                     h = (s.get("tags") or {}).get("host")
                     d.setdefault(h, [])
                     d[h] += [(c.abs_t(v[0]), c.abs_v(v[1])) for v in s["values"]]
-                out["gtag"] = {h: sorted(v, key=repr) for h, v in d.items()}
+                out["gtag"] = {h: sorted(v, key=skey) for h, v in d.items()}
             elif name == "gtime":
                 d = {}
                 for s in series:
@@ -491,7 +527,7 @@ class Behaviour(threading.Thread):
                 for v in s["values"]:
                     tags = dict(p.split("=", 1) for p in v[0].split(",")[1:])
                     keys.append((tags.get("host"), tags.get("region")))
-            return sorted(keys, key=repr)
+            return sorted(keys, key=skey)
         if kind == "tkeys":
             return sorted(v[0] for s in series for v in s["values"])
         if kind in ("thost", "tregion"):
@@ -499,7 +535,7 @@ class Behaviour(threading.Thread):
         return next((v[1] for s in series for v in s["values"]), 0)      # cnt
 
     def read_names(self, obs):
-        stmts = [(n, k, t) for n in NAMES for k, t in self.c.name_statements(n)]
+        stmts = [(n, k, t) for n in INSTS for k, t in self.c.list_statements(n)]
         res = self.multi([t for _, _, t in stmts], self.c.db, obs, "listing")
         if res is None:
             return
@@ -544,8 +580,9 @@ class Behaviour(threading.Thread):
         base_d = shapes_of(live_d, k)[shape]
         base_i = shapes_of(live, k)[shape]
         outs = []
+        why = {CAUSE[c] for c in imp_i["cause"]} or {"F-C13-4"}
         if base_i != base_d:
-            outs.append((base_i, {"F-C13-4"}))          # the other policy's DROP SERIES took series of this one
+            outs.append((base_i, set(why)))             # the as-implemented rows differ: cross-policy drop / log replay
         if leak and (gm or gq):
             by_series = {}
             for r in gq:
@@ -558,10 +595,10 @@ class Behaviour(threading.Thread):
                         extra += g
                 if not extra:
                     continue
-                ans = shapes_of(live + extra, k)[shape]
+                ans = leaked(live, extra, k, shape)
                 ids = {leak}
-                if shapes_of(live_d + extra, k)[shape] != ans:
-                    ids.add("F-C13-4")
+                if leaked(live_d, extra, k, shape) != ans:
+                    ids |= why
                 if ans != base_d:
                     outs.append((ans, ids))
         return outs
@@ -578,7 +615,7 @@ class Behaviour(threading.Thread):
                 continue
             exp = self.exp_c[inst]
             real = obs.inst[inst]
-            imp_i = e["imp"]["inst"][inst]
+            imp_i = dict(e["imp"]["inst"][inst], resuf=e["imp"]["flags"]["resuf"])
             live_d = exp["plain"]
             for s in ALL_SHAPES:
                 if s not in real:
@@ -593,12 +630,30 @@ class Behaviour(threading.Thread):
                         break
                 divs.append({"scope": inst, "shape": s, "real": real[s], "exp": exp[s], "known": known,
                              "extra": has_extra(real[s], exp[s])})
-        for n in NAMES:
-            if n not in obs.name:
+        flags = e["imp"]["flags"]
+        impi = e["imp"]["inst"]
+
+        def ser(x):
+            return sorted((y["h"], y["r"]) for y in x["ser"])
+        for inst in INSTS:
+            if inst not in obs.name:
                 continue
-            exp = self.exp_l[n]
-            real = obs.name[n]
-            impn = e["imp"]["name"][n]
+            exp = self.exp_l[inst]
+            real = obs.name[inst]
+            me = impi[inst]
+            # as implemented a listing reaches every policy whose measurement has the same versioned name
+            group = [j for j in INSTS if j.split(".")[1] == inst.split(".")[1] and impi[j]["ex"] == "yes" and impi[j]["ver"] == me["ver"]] \
+                if me["ex"] == "yes" else []
+            own = ser(me) if me["ex"] == "yes" else []
+            union = sorted(set(x for j in group for x in ser(impi[j])))
+            cross = set()
+            for j in group:
+                if ser(impi[j]) != self.exp_l[j]["series"]:
+                    cross |= {CAUSE[c] for c in impi[j]["cause"]} or {"F-C13-4"}
+            # ... and the index entries a dropped incarnation with that versioned name left behind
+            dead = sorted(set((d["h"], d["r"]) for j in INSTS if j.split(".")[1] == inst.split(".")[1] and impi[j]["usable"] == "yes"
+                              for d in impi[j]["dead"] if d["ver"] == me["ver"])) if me["ex"] == "yes" else []
+            union_dead = sorted(set(union) | set(dead))
             for s in LIST_SHAPES:
                 if s not in real:
                     continue
@@ -606,14 +661,19 @@ class Behaviour(threading.Thread):
                 if real[s] == exp[s]:
                     continue
                 known = None
-                iser = sorted((x["h"], x["r"]) for x in impn["series"])
-                ipred = {"series": iser, "thost": sorted({x[0] for x in iser}), "tregion": sorted({x[1] for x in iser}),
-                         "tkeys": ["host", "region"] if iser else []}
-                if real[s] == ipred[s] and ipred[s] != exp[s]:
-                    known = {"F-C13-4"}
-                elif s == "tkeys" and impn["schema"] == "yes" and real[s] == ["host", "region"]:
+
+                def proj(keys):
+                    return {"series": keys, "thost": sorted({x[0] for x in keys}), "tregion": sorted({x[1] for x in keys}),
+                            "tkeys": ["host", "region"] if keys else []}[s]
+                if s == "tkeys" and flags["schema"] == "yes" and me["ex"] == "yes" and real[s] == ["host", "region"]:
                     known = {"F-C13-5"}
-                divs.append({"scope": n, "shape": s, "real": real[s], "exp": exp[s], "known": known,
+                elif real[s] == proj(own) and own != exp["series"]:
+                    known = {CAUSE[c] for c in me["cause"]} or {"F-C13-4"}
+                elif flags["listrp"] == "yes" and real[s] == proj(union):
+                    known = {"F-C13-6"} | cross
+                elif flags["listrp"] == "yes" and dead and real[s] == proj(union_dead):
+                    known = {"F-C13-8"} | cross | ({"F-C13-6"} if union != own else set())
+                divs.append({"scope": inst, "shape": s, "real": real[s], "exp": exp[s], "known": known,
                              "extra": has_extra(real[s], exp[s])})
         if obs.wit:
             for s, exp in self.wit_exp.items():
@@ -634,8 +694,8 @@ class Behaviour(threading.Thread):
     def settle(self, si, e, nochange):
         """read the matrix until it equals the expectation (or what an open finding predicts) or the bound expires"""
         k = e["exp"]["k"]
-        self.exp_c = {i: canon_exp(e["exp"]["inst"][i]) for i in INSTS}
-        self.exp_l = {n: canon_listing(e["exp"]["name"][n]) for n in NAMES}
+        self.exp_c = {i: canon_exp(e["exp"]["inst"][i]["sel"]) for i in INSTS}
+        self.exp_l = {i: canon_listing(e["exp"]["inst"][i]["list"]) for i in INSTS}
         # the specification's shape operators and the replay's agree (for every step)
         for i in INSTS:
             mine = shapes_of(self.exp_c[i]["plain"], k)
@@ -750,6 +810,8 @@ class Behaviour(threading.Thread):
                 else:
                     self.local(si, e)
                     nochange = a in ("DropSeriesNoFrom", "CreateRP", "CreateDatabase")
+                if a in ("Flush", "Compact", "RestartClean", "RestartKill"):
+                    self.stmts.append(a)
                 self.settle(si, e, nochange)
                 self.steps_done += 1
                 if self.batch.abort:
@@ -972,7 +1034,8 @@ def report(batches, stats, exh, seeds, tier, seed, t0):
                 nviol += 1
                 if nviol <= 6:
                     path = vlib.save_replay(PROP, {"case": {"skeleton": b.skeleton, "bid": b.bid, "idx": x.idx, "hist": x.hist},
-                                                  "seed": seed, "result": [describe(d) for d in bad[:8]]})
+                                                  "seed": seed, "result": [describe(d) for d in bad[:8]], "statements": x.stmts,
+                                                  "example_queries": [t for _, t in x.c.inst_statements("rp1.m", 1)]})
                     print(f"VIOLATION property={PROP} replay={path}")
                     for d in bad[:4]:
                         vlib.log("   " + x.c.db + " " + describe(d))
@@ -996,12 +1059,12 @@ def report(batches, stats, exh, seeds, tier, seed, t0):
         "distinct_nontrivial": len({json.dumps([[e["a"], e["args"]] for e in x.hist], sort_keys=True) for x in behaviours}),
         "rule": "behaviours of DropSem.tla (seeded TLC simulation, one behaviour per simulated trace, all behaviours of a batch share a "
                 "skeleton of global actions); distinct = distinct action sequences; evaluations = read-shape answers compared "
-                "(15 selection shapes x 3 measurement instances + 4 listings x 2 names + 3 witness reads, after every action, final poll)",
+                "(15 selection shapes + 4 listings for each of 3 measurement instances + 3 witness reads, after every action, final poll)",
         "tlc": {"exh": exh, "sim": stats["sim"], "mutation_seeds": seeds},
         "steps_replayed": sum(x.steps_done for x in behaviours),
         "actions_replayed": acts,
         "queries": sum(x.queries for x in behaviours),
-        "read_shape_matrix": {"per instance": ALL_SHAPES, "per measurement name": LIST_SHAPES, "witness database": ["series", "thost", "cnt"]},
+        "read_shape_matrix": {"selections per measurement instance": ALL_SHAPES, "listings per measurement instance": LIST_SHAPES, "witness database": ["series", "thost", "cnt"]},
         "max_convergence_lag_s": lags,
         "convergence_bound_s": CONV,
         "globals": {b.bid: b.globals_done for b in batches},
@@ -1033,11 +1096,12 @@ def report(batches, stats, exh, seeds, tier, seed, t0):
 def run(tier, seed):
     t0 = time.time()
     vserver.build_server()
+    sets, stats = gen_behaviours(tier, seed)
+    vlib.log(f"[c13] behaviours per skeleton: { {k: len(v) for k, v in sets.items()} }; TLC simulation {time.time() - t0:.1f}s")
+    # Mode A and the mutation seeds run while the servers are busy (the replay mostly waits)
     with cf.ThreadPoolExecutor(2) as ex:
         fa = ex.submit(mode_a, tier)
         fs = ex.submit(check_seeds)
-        sets, stats = gen_behaviours(tier, seed)
-        vlib.log(f"[c13] behaviours per skeleton: { {k: len(v) for k, v in sets.items()} }; TLC simulation {time.time() - t0:.1f}s")
         batches = run_batches(sets, seed)
         vlib.log(f"[c13] replay done at {time.time() - t0:.1f}s")
         exh = fa.result()
@@ -1069,6 +1133,9 @@ def replay(path, seed):
         raise vlib.Infra(str(x.error))
     open_ids = {f["id"] for f in vlib.load_known(PROP)}
     bad = list(x.divs) + [d for d in x.known if not d["known"] <= open_ids]
+    if os.environ.get("C13_TRACE"):
+        for t in x.stmts:
+            vlib.log("   STMT " + t[:300])
     for d in (x.divs + x.known)[:8]:
         vlib.log("   " + describe(d) + (f" known={sorted(d['known'])}" if d["known"] else ""))
     if bad:
